@@ -115,6 +115,7 @@ def mkEnv (start : List V) (cdim steps : Nat) (ctab : List (List V × Rat × Lis
   shrink2 := fun a b => match s2.find? (fun x => x.1 = a ∧ x.2.1 = b) with
     | some x => x.2.2
     | none => .nan
+  nextUp := fun m => m
 
 def showInfo (i : CycleInfo) : String :=
   s!"{i.cycle}:{showRat i.maxTime}:{showTag i.tag}:{i.calls}:{showV i.maxOk}:{showV i.minErr}:{i.branch}:{showV i.newMax}"
